@@ -118,6 +118,7 @@ type Obligation struct {
 }
 
 type loopInfo struct {
+	seenHdr T // map-range loops over string keys: ghost set of keys visited before this iteration (havocked at the header)
 	header  *ssa.BasicBlock
 	ordinal int
 	body    map[*ssa.BasicBlock]bool
@@ -1350,9 +1351,15 @@ func (fx *FX) enterLoop(li *loopInfo, h *ssa.BasicBlock, conds []T, sts []*State
 			break
 		}
 	}
+	if fx.mapRangeLoop(li) && fx.stringKeyRange(li) {
+		li.seenHdr = fx.fresh("rangeseen", SKeySet)
+	}
 	// entry obligations
 	for k := range sts {
 		env := fx.loopEnv(li, sts[k], func(phi *ssa.Phi) Val { return fx.val(phi.Edges[predIdx[k]]) }, phis)
+		if li.seenHdr.S != "" {
+			env.rangeSeen = T{"((as const (Array BSeq Bool)) false)", SKeySet}
+		}
 		if li.lc != nil {
 			for _, c := range li.lc.Inv {
 				fx.safeClause = c.Safe
@@ -1464,6 +1471,32 @@ func (fx *FX) mapRangeLoop(li *loopInfo) bool {
 		}
 	}
 	return true
+}
+
+// stringKeyRange: the ranged map has string keys.
+func (fx *FX) stringKeyRange(li *loopInfo) bool {
+	if m := fx.rangedMap(li); m != nil {
+		if mt, ok := m.Type().Underlying().(*types.Map); ok {
+			if b, ok := mt.Key().Underlying().(*types.Basic); ok && b.Info()&types.IsString != 0 {
+				return true
+			}
+		}
+	}
+	return false
+}
+
+// rangeKey: the key produced by this iteration's next.
+func (fx *FX) rangeKey(li *loopInfo) (T, bool) {
+	for _, in := range li.header.Instrs {
+		if nx, ok := in.(*ssa.Next); ok {
+			if tv, ok := fx.vals[nx].(VTuple); ok && len(tv.E) > 1 {
+				if kv, ok := tv.E[1].(VStr); ok {
+					return kv.T, true
+				}
+			}
+		}
+	}
+	return T{}, false
 }
 
 func (fx *FX) rangedMap(li *loopInfo) ssa.Value {
@@ -1625,6 +1658,7 @@ func (fx *FX) loopEnv(li *loopInfo, st *State, phiVal func(*ssa.Phi) Val, phis [
 		}
 	}
 	env.inLoop = true
+	env.rangeSeen = li.seenHdr
 	return env
 }
 
@@ -1675,6 +1709,11 @@ func (fx *FX) closeLoop(li *loopInfo, from *ssa.BasicBlock, succIdx int) {
 	}
 	fx.curBlock = from
 	env := fx.loopEnv(li, st, func(phi *ssa.Phi) Val { return fx.val(phi.Edges[pidx]) }, phis)
+	if li.seenHdr.S != "" {
+		if k, ok := fx.rangeKey(li); ok {
+			env.rangeSeen = sto(li.seenHdr, k, tTrue)
+		}
+	}
 	if li.lc != nil {
 		for _, c := range li.lc.Inv {
 			fx.safeClause = c.Safe
@@ -1701,6 +1740,7 @@ type Env struct {
 	inLoop       bool
 	calleeMode   bool
 	calleeParams map[string]Val
+	rangeSeen    T // ghost: keys visited so far by the enclosing map-range loop
 }
 
 func (fx *FX) entryEnv(st *State) *Env {
